@@ -797,11 +797,14 @@ def series_computation(
     data = {
         "zero_data": zero_data,
         "identity_data": identity_data,
+        # `start = "name_0"` and the documented `start = "name"` both pin the zeroth
+        # order of the input series `name`.
         **{
-            f"{name}_0_data": {
+            f"{name}{suffix}_data": {
                 block + zeroth_order: series[block + zeroth_order] for block in all_blocks
             }
             for name, series in series.items()
+            for suffix in ("_0", "")
         },
     }
 
